@@ -285,3 +285,48 @@ func WritePlainDir(st *store.Store, entries map[string]cid.Cid, sizes map[string
 	st.Put(n.Cid(), n.RawData())
 	return n.Cid()
 }
+
+// WriteDeepShardChain writes a legal-looking but hostile sharded directory: a
+// chain of depth shards, each holding a single child link in the bucket the
+// name's hash selects at that level (bucket 0 once the 64 hash bits are
+// used up), with the entry itself in the last shard. A chain longer than
+// 64/log2(fanout) levels cannot be addressed by any lookup.
+func WriteDeepShardChain(st *store.Store, fanout, depth int, name string) cid.Cid {
+	h := murmur3.Sum64([]byte(name))
+	w := 0
+	for 1<<uint(w) < fanout {
+		w++
+	}
+	pad := len(fmt.Sprintf("%X", fanout-1))
+	idxAt := func(level int) int {
+		consumed := level * w
+		if consumed+w > 64 {
+			return 0
+		}
+		return int((h >> uint(64-consumed-w)) & uint64(fanout-1))
+	}
+	target := EntryTarget(st, name)
+	var child cid.Cid
+	for level := depth - 1; level >= 0; level-- {
+		idx := idxAt(level)
+		bf := make([]byte, fanout/8)
+		bf[len(bf)-1-idx/8] |= 1 << (uint(idx) % 8)
+		// strip leading zero bytes like conformant writers do
+		for len(bf) > 1 && bf[0] == 0 {
+			bf = bf[1:]
+		}
+		u := &RawUnixFS{Type: 5, HasType: true, Data: bf, HasData: true, HashType: 0x22, HasHashType: true, Fanout: uint64(fanout), HasFanout: true}
+		var l RawLink
+		if level == depth-1 {
+			l = RawLink{Hash: target.Bytes(), HasHash: true, Name: fmt.Sprintf("%0*X%s", pad, idx, name), HasName: true, Tsize: 1, HasTsize: true}
+		} else {
+			l = RawLink{Hash: child.Bytes(), HasHash: true, Name: fmt.Sprintf("%0*X", pad, idx), HasName: true, Tsize: 1, HasTsize: true}
+		}
+		n := &RawNode{Links: []RawLink{l}, Data: u.Encode(), HasData: true}
+		b := n.Encode()
+		c, _ := cid.Prefix{Version: 1, Codec: cid.DagProtobuf, MhType: mh.SHA2_256, MhLength: 32}.Sum(b)
+		st.Put(c, b)
+		child = c
+	}
+	return child
+}
